@@ -427,11 +427,17 @@ impl Net {
             ["srv.start", rest @ ..] => {
                 self.stop();
                 let mut max = 128usize;
+                // the listener's accept(2) back-off (milliseconds)
+                let (mut bmin, mut bmax) = (10u64, 100u64);
                 let mut cfg_toks = vec![];
                 let mut keep = false;
                 for t in rest {
                     if let Some(v) = t.strip_prefix("max=") {
                         max = v.parse().ok()?;
+                    } else if let Some(v) = t.strip_prefix("bmin=") {
+                        bmin = v.parse().ok()?;
+                    } else if let Some(v) = t.strip_prefix("bmax=") {
+                        bmax = v.parse().ok()?;
                     } else if *t == "keep" {
                         // a restart: the directory of the previous server is opened again
                         keep = true;
@@ -460,7 +466,7 @@ impl Net {
                     ctl: self.ctl.clone(),
                 };
                 let netconf: bitcask::net::Config = serde_json::from_value(serde_json::json!({
-                    "host": "127.0.0.1", "port": 0, "min_backoff_ms": 10, "max_backoff_ms": 100, "max_connections": max
+                    "host": "127.0.0.1", "port": 0, "min_backoff_ms": bmin, "max_backoff_ms": bmax, "max_connections": max
                 }))
                 .ok()?;
                 let (tx, rx) = tokio::sync::oneshot::channel::<()>();
